@@ -296,6 +296,18 @@ register_b09(
     assumptions=["FOR/NEXT pairing is not checked (the source may branch into loops); type correctness is not part of the property"],
 )
 
+register_b09(
+    "C05", ["CocoVerif.Props.C05"], OB.c05, OB.c05_classify,
+    "every converted program of the transpiler suite (generated expressions nest INT/VAL/STR$/HEX$/INSTR/STRING$/INKEY$/BUTTON/"
+    "JOYSTK/POINT inside each other and inside built-in functions, in assignment, IF with and without ELSE / ELSE IF, FOR bounds, "
+    "PRINT and PRINT@ items, subscripts on either side, ON selector, device operands): in the real output every temporary must be "
+    "assigned by a call of the same statement group before it is read and never overwritten before use, and per source line the "
+    "sequence of runtime calls must equal the source's convertible functions ordered innermost-first, left-to-right (read from "
+    "the source text independently); distinct = distinct request",
+    assumptions=["with filter_unused_linenum or an unlabelled line 0 the output cannot be cut into source lines: only the temporary "
+                 "discipline is checked there"],
+)
+
 import suite_names  # noqa: E402
 
 PROPS["C09"] = {
